@@ -304,6 +304,25 @@ def _job(args):
                     return []
             except (TypeError, ValueError):
                 return []
+    elif name.endswith("@df"):
+        # every option left at its DEFAULT: solver objects constructed without arguments, functions called with their
+        # required arguments only (defaults are configuration values too; a changed default or None-sentinel shows here)
+        jn, fn, a, kw = build(name[:-3], n, rng)
+        a = list(a)
+        if a and not isinstance(a[0], np.ndarray) and hasattr(a[0], "__dict__") and hasattr(type(a[0]), "compute" if hasattr(a[0], "compute") else "solve"):
+            try:
+                a[0] = type(a[0])()
+            except TypeError:
+                return []
+        else:
+            try:
+                req = [p_ for p_ in inspect.signature(fn).parameters.values() if p_.default is inspect.Parameter.empty and p_.kind in (p_.POSITIONAL_ONLY, p_.POSITIONAL_OR_KEYWORD)]
+            except (TypeError, ValueError):
+                return []
+            if len(req) == len(a) and not kw:
+                return []                                 # nothing optional was passed: the plain sweep is this call
+            a = a[:len(req)]
+        a, kw = tuple(a), {}
     elif "@" in name:
         how_ = name.split("@")[1]
         jn, fn, a, kw = (build_nearly if how_ in ("nh", "nt", "nu") else build_underflow if how_ == "ue" else build_aspect)(name, n, rng)
@@ -316,7 +335,13 @@ def _job(args):
     with contextlib.redirect_stdout(io.StringIO()):
         out = fn(*a, **kw)
     attr = jn.split(".")[-1] if jn.split(".")[0][0].isupper() else jn
-    recs = jf(attr if attr in ("compute", "solve") else jn, fn, pre, kw, out)
+    if name.endswith("@df"):
+        try:
+            recs = jf(attr if attr in ("compute", "solve") else jn, fn, pre, kw, out)
+        except Exception:
+            return []                                     # the judge was written for another form of output (return_* options)
+    else:
+        recs = jf(attr if attr in ("compute", "solve") else jn, fn, pre, kw, out)
     return [(o.prop, o.fn, o.cls, dict(o.detail, size_sweep=True, routine=name, n=n), o.events) for o in recs]
 
 
@@ -400,6 +425,7 @@ def stage(ctx, quick=False):
             if n > CAP.get(nm, 1000):
                 continue
             jobs.append((nm + "@vb", n, ctx.seed * 1013 + 41 * n + len(jobs)))
+            jobs.append((nm + "@df", n, ctx.seed * 1013 + 43 * n + len(jobs)))
     outs = par.pmap(_job, jobs, chunk=1)
     rec = S.Rec()
     ncalls = 0
